@@ -109,9 +109,20 @@ struct Exec {
     for (size_t i = 0; i < secs.size(); i++) if (secs[i] == a->current_section()) return i + 1;
     return 0;
   }
-  static uint32_t digest(const uint8_t* p, size_t n) {
+  // placeholders of embed_label / embed_label_delta that were not overwritten since: their bytes count as 0 in the
+  // checksum (their value is C03/C04's; it may legitimately change when a label gets bound)
+  struct Slot { size_t sec, lo, hi; };
+  std::vector<Slot> slots;
+  void clobber(size_t sec, size_t lo, size_t hi) {
+    if (lo >= hi) return;
+    for (size_t i = 0; i < slots.size();)
+      if (slots[i].sec == sec && slots[i].lo < hi && lo < slots[i].hi) slots.erase(slots.begin() + i); else i++;
+  }
+  uint32_t digest(size_t sec, const uint8_t* p, size_t n) const {
     uint64_t s = 0;
     for (size_t i = 0; i < n; i++) s += uint64_t(p[i]) * ((i % 251) + 1);
+    for (const Slot& sl : slots)
+      if (sl.sec == sec) for (size_t i = sl.lo; i < sl.hi && i < n; i++) s -= uint64_t(p[i]) * ((i % 251) + 1);
     return uint32_t(s % 65521);
   }
   void post() {
@@ -124,11 +135,12 @@ struct Exec {
     if (size > 64 * kMaxTotal) { w.kv("off", -1).kv("size", -1).kv("cap", -1).kv("coh", false).kv("nrel", 0).kv("nfix", 0); return; }
     w.kv("off", a->offset()).kv("size", size).kv("cap", cb.capacity()).kv("coh", coh)
      .kv("nrel", code.reloc_entries().size()).kv("nfix", code.unresolved_fixup_count())
-     .kv("dig", digest(cb.data(), size));
+     .kv("dig", digest(cur_index(), cb.data(), size));
     if (size <= kImgMax) w.bytes("img", cb.data(), size);
   }
   void app_bytes(size_t off0) {
     size_t off1 = a->offset();
+    clobber(cur_index(), off0, off1);
     // (a window larger than anything this harness asks for is not dumped: the reported offset alone gets it rejected)
     if (off1 >= off0 && off1 <= a->buffer_capacity() && off1 - off0 <= 4 * kMaxTotal) w.bytes("app", a->buffer_data() + off0, off1 - off0);
     else w.bytes("app", nullptr, 0);
@@ -268,7 +280,9 @@ struct Exec {
     size_t off0 = a->offset();
     Error e = a->embed_label(L, sz);
     w.beginObj().kv("e", "EmbedLabel").kv("lab", (long long)(l >= 1 && l <= labels.size() ? l : 0)).kv("sz", sz).kv("r", err_name(e));
-    app_bytes(off0); post();
+    app_bytes(off0);
+    if (e == Error::kOk) slots.push_back(Slot{cur_index(), off0, a->offset()});
+    post();
     w.endObj().emit(out);
     if (e == Error::kOk) { Replay r; r.k = OEmbedLabel; r.l = l; r.sz = sz; calls.push_back(r); }
   }
@@ -278,7 +292,9 @@ struct Exec {
     Error e = a->embed_label_delta(L, B, sz);
     w.beginObj().kv("e", "EmbedLabelDelta").kv("lab", (long long)(l >= 1 && l <= labels.size() ? l : 0))
      .kv("base", (long long)(b >= 1 && b <= labels.size() ? b : 0)).kv("sz", sz).kv("r", err_name(e));
-    app_bytes(off0); post();
+    app_bytes(off0);
+    if (e == Error::kOk) slots.push_back(Slot{cur_index(), off0, a->offset()});
+    post();
     w.endObj().emit(out);
     if (e == Error::kOk) { Replay r; r.k = ODelta; r.l = l; r.b = b; r.sz = sz; calls.push_back(r); }
   }
